@@ -199,6 +199,24 @@ def fmt_idate(day: tuple[int, int, int], time: str, zone: str,
                                MONTHS[m - 1], y, time, zone)
 
 
+_META_CHARS = '()[]+*?^$|'
+_meta_word_re = re.compile(r'[A-Za-z0-9()\[\]+*?^$|.@_-]+')
+
+
+def _meta(rng: random.Random, pool: list[str]) -> str:
+    """A word in which whole tokens stand next to characters that mean
+    something to a regular-expression engine and nothing to IMAP: a search
+    string is a substring, so "(tok)" is found only where the parentheses
+    are, "tok+" only before a plus sign, "$tok" wherever it is written."""
+    t = _case(rng, rng.choice(pool))
+    u = _case(rng, rng.choice(pool))
+    return rng.choice([
+        '(%s)' % t, '%s+' % t, '%s?' % t, '%s*' % t, '[%s]' % t,
+        '%s.%s' % (t, u), '^%s' % t, '%s$' % t, '$%s' % t,
+        '%s|%s' % (t, u), '%s.' % t, '(%s' % t, '%s)' % t, '[%s' % t,
+        '%s+%s' % (t, u)])
+
+
 def gen_message(rng: random.Random, pool: list[str], base: tuple[int, int,
                                                                   int],
                 cid: str, backend: str) -> dict[str, Any]:
@@ -213,6 +231,8 @@ def gen_message(rng: random.Random, pool: list[str], base: tuple[int, int,
     if rng.random() < 0.9:
         words = [_case(rng, rng.choice(pool))
                  for _ in range(rng.choice([1, 2, 2, 3]))]
+        if rng.random() < 0.25:
+            words[rng.randrange(len(words))] = _meta(rng, pool)
         if len(words) > 1 and rng.random() < 0.3:
             k = rng.randint(1, len(words) - 1)
             subj = ' '.join(words[:k]) + '\r\n ' + ' '.join(words[k:])
@@ -227,6 +247,8 @@ def gen_message(rng: random.Random, pool: list[str], base: tuple[int, int,
     for _ in range(rng.choice([0, 1, 1, 1, 2])):
         words = [_case(rng, rng.choice(pool))
                  for _ in range(rng.choice([1, 1, 2]))]
+        if rng.random() < 0.25:
+            words[rng.randrange(len(words))] = _meta(rng, pool)
         hdr.append(rng.choice(['X-VF-Tok', 'X-VF-Tok', 'x-vf-tok']) + ': ' +
                    ' '.join(words))
     hdr.append('X-VF-ID: ' + cid)
@@ -240,6 +262,8 @@ def gen_message(rng: random.Random, pool: list[str], base: tuple[int, int,
         for _ in range(rng.choice([1, 1, 2])):
             words.insert(rng.randint(0, len(words)),
                          _case(rng, rng.choice(pool)))
+        if rng.random() < 0.12:
+            words.insert(rng.randint(0, len(words)), _meta(rng, pool))
         lines.append(' '.join(words))
     target = rng.choice([0, 0, 200, 500, 1200, 2500])
     if target:
@@ -654,6 +678,16 @@ class Gen:
         ones) taken from the relevant text of some message of the view."""
         rng = self.rng
         r = rng.random()
+        if rng.random() < 0.12 and self.view.msgs:
+            # a word with characters special to regular expressions, as some
+            # message of the view writes it (a search string is a substring)
+            metas = [w for x in self.view.msgs for t in texts_of(x)
+                     for w in _meta_word_re.findall(t)
+                     if any(c in w for c in _META_CHARS)
+                     and any(p in w for p in self.pool)]
+            if metas:
+                return _case(rng, rng.choice(metas))
+            return _meta(rng, self.pool + self.absent)
         if r < 0.15 or not self.view.msgs:
             tok = rng.choice(self.absent)
             return _case(rng, tok)
